@@ -619,6 +619,9 @@ func (p *parser) parseEscape(opts CharsetOptions, standalone bool) charset {
 					return nil
 				}
 				r = r<<4 + d
+				if r > unicode.MaxRune {
+					r = unicode.MaxRune + 1 // saturate instead of overflowing; reported below
+				}
 				p.next()
 				if p.ch == '}' {
 					break
@@ -633,6 +636,9 @@ func (p *parser) parseEscape(opts CharsetOptions, standalone bool) charset {
 					return nil
 				}
 				r = r<<4 + d
+				if r > unicode.MaxRune {
+					r = unicode.MaxRune + 1 // saturate instead of overflowing; reported below
+				}
 				p.next()
 			}
 		}
@@ -675,7 +681,7 @@ func hexval(r rune) rune {
 	switch {
 	case r >= 'a' && r <= 'f':
 		return r - 'a' + 10
-	case r >= 'A' && r <= 'Z':
+	case r >= 'A' && r <= 'F':
 		return r - 'A' + 10
 	case r >= '0' && r <= '9':
 		return r - '0'
